@@ -168,7 +168,7 @@ def check_C09(tier, seed):
     # near-valid queries (one or two targeted mutations of a valid one): whatever the frontend still accepts must execute without panicking
     insts = universe.renumber(insts + universe.mutated_universe(tier, seed + 200))
     obs = observe(insts, wd, "ir,batch:2,prune", seed)
-    n_exec = 0; seen = set(); nontrivial = 0
+    n_exec = 0; seen = set(); nontrivial = 0; toolong = []
     for inst, o in zip(insts, obs):
         if o["compile"]["t"] != "ok": continue
         ex = o.get("exec", {})
@@ -182,7 +182,7 @@ def check_C09(tier, seed):
         if ex.get("t") == "panic":
             res.violation(f"engine panicked: {ex['err'][:200]} on query {inst['text']!r}", text=ex["err"], tags=tags, replay=replay_case(inst, o))
         elif ex.get("t") == "toolong":
-            res.violation(f"engine did not end within {5000} rows on query {inst['text']!r}", text="nontermination", tags=tags, replay=replay_case(inst, o))
+            toolong.append((inst, o, tags))
         elif ex.get("t") == "ok":
             for b in o.get("batch", {}).get("bad", []):
                 if b["what"] == "panic":
@@ -191,6 +191,15 @@ def check_C09(tier, seed):
             if pr.get("t") == "panic":
                 res.violation(f"engine/hints panicked with a hint-consuming adapter: {pr['err'][:200]} on query {inst['text']!r}", text=pr["err"], tags=tags | {"hint_consuming_adapter"}, replay=replay_case(inst, o, adapter="pruning"))
             if ex["rows"]: res.sample(brief(inst, {"rows": len(ex["rows"])}), cap=3)
+    # executions cut at the row limit: a result that the declarative semantics says is that large is not a failure to end
+    if toolong:
+        from props_engine import judge
+        cv = judge(res, "JudgeCount", [{k: i[k] for k in ("id", "schema", "g", "q", "args")} for i, _, _ in toolong], [{"id": i["id"], "args": o.get("args", {})} for i, o, _ in toolong], wd, "count")
+        for inst, o, tags in toolong:
+            n = int(cv[inst["id"]]["count"])
+            if n <= 5000:
+                res.violation(f"engine did not end within 5000 rows although the query has {n} rows: {inst['text']!r}", text="nontermination", tags=tags, replay=replay_case(inst, o))
+        res.notes["large_results_not_judged"] = sum(1 for inst, _, _ in toolong if int(cv[inst["id"]]["count"]) > 5000)
     res.cov["evaluations"] = n_exec
     res.cov["distinct_nontrivial"] = nontrivial
     res.cov["rule"] = ("every instance of the semantic universe (stress variant: non-regex strings as regex arguments, count filter arguments -1/0/big, repeated tag uses) and of the mutated universe (gen/badq.py) that the real frontend "
